@@ -187,6 +187,35 @@ theorem share_iffL (L : Expr → String) (st : St) (par : Nat) (es : List Expr) 
     rw [l1] at l2
     exact Option.some.inj l2
 
+theorem injAllL_append_state (L : Expr → String) (st : St) (par : Nat) (es fs : List Expr) :
+    (injAllL L st par (es ++ fs)).1 = (injAllL L (injAllL L st par es).1 par fs).1 := by
+  induction es generalizing st with
+  | nil => rfl
+  | cons e es ih => simp only [List.cons_append, injAllL]; exact ih _
+
+theorem exists_zip_of_mem {α β : Type} (l : List α) (ns : List β) (h : ns.length = l.length) (a : α) (ha : a ∈ l) :
+    ∃ n, (a, n) ∈ l.zip ns := by
+  induction l generalizing ns with
+  | nil => simp at ha
+  | cons x xs ih =>
+    cases ns with
+    | nil => simp at h
+    | cons n ns =>
+      simp only [List.mem_cons] at ha
+      rcases ha with rfl | ha
+      · exact ⟨n, by simp⟩
+      · obtain ⟨m, hm⟩ := ih ns (by simpa using h) ha
+        exact ⟨m, by simp [hm]⟩
+
+/-- writing an expression of the history again changes nothing at all: the table of children is the same -/
+theorem rewrite_noop (L : Expr → String) (st : St) (par : Nat) (es : List Expr) (e : Expr) (he : e ∈ es) :
+    (injAllL L st par (es ++ [e])).1 = (injAllL L st par es).1 := by
+  rw [injAllL_append_state]
+  obtain ⟨n, hn⟩ := exists_zip_of_mem es _ (injAllL_length L st par es) e he
+  have hl := injAllL_lookup L st par es e n hn
+  simp only [injAllL]
+  rw [injectL_found L _ par e n hl]
+
 /-! ### the same for the labels of `_get_injection_label` (instances of the generic lemmas) -/
 
 theorem inject_found (H : Key → String) (p : Printer) (st : St) (par : Nat) (e : Expr) (n : Nat)
